@@ -726,6 +726,9 @@ func (cr *checkRun) report(start time.Time, evPath string) int {
 		}
 		violations++
 		body := fmt.Sprintf("property: %s\nobligation: %s\nkind: %s\nresult: %s\nsolvers: %v\n\n--- solver output ---\n%s\n", prop, o.Name, o.Kind, o.Result.Status, o.Result.All, o.Result.Output)
+		if o.Src != "" {
+			body = fmt.Sprintf("source: %s\n", o.Src) + body
+		}
 		if w := failedW[o]; w != nil && o.Mark > 0 {
 			body += "\n--- query (SMT-LIB) ---\n" + o.query(w) + "(check-sat)\n"
 		}
